@@ -50,6 +50,67 @@ theorem C11_always_recovers_false : ¬ C11_always_recovers := by
   revert this
   decide
 
+/-- **the state store continues from the head block's root**: start-up opens the state store (`NewSimpleLedger`) and rolls
+it back to the chain height `c` (`ledger.New`).  Whether that rollback has something to undo or not, the root the next
+block's journal hash chains from is the root recorded in the journal of height `c` — the state root of block `c`. -/
+theorem C11_startup_root (l l1 l2 : Bxh.Ledger.L) (c : Nat) (hc : c ≠ 0)
+    (h1 : Bxh.Ledger.reopen l = some l1) (h2 : Bxh.Ledger.rollback l1 c = .ok l2) :
+    ∃ bj, Bxh.KV.get l2.db.journals c = some bj ∧ l2.prevRoot = bj.root := by
+  by_cases heq : l1.maxJ = c
+  · -- nothing to undo: the ledger is the reopened one
+    have hl : l2 = l1 := by
+      unfold Bxh.Ledger.rollback at h2
+      split at h2
+      · cases h2
+      · split at h2
+        · cases h2
+        · injection h2 with h2
+          exact h2.symm
+    subst hl
+    unfold Bxh.Ledger.reopen at h1
+    simp only at h1
+    split at h1
+    · split at h1
+      · rename_i bj hbj
+        injection h1 with h1
+        subst h1
+        simp only at heq
+        exact ⟨bj, by rw [← heq]; exact hbj, rfl⟩
+      · cases h1
+    · injection h1 with h1
+      subst h1
+      simp only at heq
+      exact absurd heq.symm hc
+  · unfold Bxh.Ledger.rollback at h2
+    split at h2
+    · cases h2
+    · split at h2
+      · cases h2
+      · simp only at h2
+        split at h2
+        · cases h2
+        · split at h2
+          · rename_i bj hbj
+            injection h2 with h2
+            subst h2
+            exact ⟨bj, hbj, rfl⟩
+          · cases h2
+
+/-- at height 0 the state store continues from the zero root -/
+theorem C11_startup_root_genesis (l l2 : Bxh.Ledger.L) (hm : l.maxJ ≠ 0) (h2 : Bxh.Ledger.rollback l 0 = .ok l2) :
+    l2.prevRoot = Bxh.Ledger.zeroRoot := by
+  unfold Bxh.Ledger.rollback at h2
+  split at h2
+  · cases h2
+  · split at h2
+    · cases h2
+    · simp only at h2
+      split at h2
+      · cases h2
+      · injection h2 with h2
+        subst h2
+        rfl
+
 /-- non-vacuity: the fully durable commit and the fully lost commit both recover -/
 example : recoverOK 7 (recover 7 { s := true, c := true, b := 5 }) := by decide
 example : recoverOK 7 (recover 7 { s := false, c := false, b := 0 }) := by decide
